@@ -222,6 +222,10 @@ struct Engine
     long crash_points = 0;
     bool suspended = false; // boundary callback off (restart clause runs a second sink)
     std::vector<std::array<int, 3>> fault_sites; // (op, call, nth)
+    // sibling sink (C06): a second rotating sink with a look-alike name in the same directory
+    QSharedPointer<Sink> sib;
+    std::string sib_name, sib_stem, sib_suffix;
+    int sib_records = 0;
 
     explicit Engine(const FPlan &p) : P(p) { }
 
@@ -399,10 +403,13 @@ struct Engine
         sim::clock_set(epoch_for(P.start_ms_of_day), 1000 * sim::SEC);
         sim::clock_tick_always(true);
         sim_start = sim::mono_now();
+        name_sibling();
         for (int idx : P.foreign) {
             std::string n = foreign_name(idx);
             if (n == active_name || logdir::parse_rotated(n, stem, suffix).ok || foreign.count(n))
                 continue;
+            if (is_sibling_file(n))
+                continue; // it would be the sibling sink's own file, which that sink may rotate away
             std::string bytes = "foreign " + n + "\n";
             std::string path = logdir_path + "/" + n;
             FILE *f = fopen(path.c_str(), "wb");
@@ -414,6 +421,70 @@ struct Engine
             sim::fs_stamp(path.c_str(), mt);
             foreign[n] = { bytes, logdir::mtime_ns(path) };
         }
+    }
+
+    bool is_sibling_file(const std::string &name) const
+    {
+        if (sib_name.empty())
+            return false;
+        return name == sib_name || logdir::parse_rotated(name, sib_stem, sib_suffix).ok;
+    }
+    // files of the other party: (name -> bytes, mtime)
+    std::map<std::string, std::pair<std::string, int64_t>> party_files(bool sibling_side) const
+    {
+        std::map<std::string, std::pair<std::string, int64_t>> m;
+        for (auto &f : observe_dir(logdir_path)) {
+            bool s = is_sibling_file(f.name);
+            bool mine = f.name == active_name || logdir::parse_rotated(f.name, stem, suffix).ok;
+            if (sibling_side ? s : (mine && !s))
+                m[f.name] = { f.raw, f.mtime };
+        }
+        return m;
+    }
+    void name_sibling()
+    {
+        if (P.sibling.empty())
+            return;
+        std::string b = P.sibling;
+        size_t sl = b.find('/');
+        if (sl != std::string::npos)
+            b = b.substr(sl + 1);
+        sib_name = b;
+        size_t dot = b.rfind('.');
+        if (dot == std::string::npos || dot == 0) {
+            sib_stem = b;
+            sib_suffix = "";
+        } else {
+            sib_stem = b.substr(0, dot);
+            sib_suffix = b.substr(dot + 1);
+        }
+        if (sib_name == active_name)
+            sib_name.clear();
+    }
+    void make_sibling()
+    {
+        if (sib_name.empty())
+            return;
+        suspended = true;
+        sib = RotatingFileSinkPtr::create(QString::fromStdString(logdir_path + "/" + sib_name), P.L, P.N,
+                                         RotatingFileSink::Options(P.options));
+        suspended = false;
+    }
+    void do_swrite(const FOp &op)
+    {
+        if (!sib)
+            return;
+        auto before = party_files(false);
+        std::string bytes = "s" + std::to_string(sib_records++) + ":" + std::string(op.n > 0 ? op.n : 1, 'z');
+        QMessageLogContext ctx("f.cpp", 1, "void f()", "default");
+        LogMessage lmsg(QtDebugMsg, ctx, QString::fromStdString(bytes));
+        suspended = true;
+        sib->send(lmsg);
+        suspended = false;
+        auto after = party_files(false);
+        if (before != after && is("C06"))
+            fail("foreign-file-touched", "a write of the sibling sink " + sib_name + " changed files of " + active_name,
+                 "foreign-file-touched/sibling");
     }
 
     static void boundary_cb(const sim::FsBoundary &b, void *ctx) { ((Engine *)ctx)->on_boundary(b); }
@@ -905,7 +976,12 @@ struct Engine
                         pre_segs.push_back({ sg.plain_name, sg.content });
                 crashes.clear();
             }
-            if (op.k == "write") {
+            std::map<std::string, std::pair<std::string, int64_t>> sib_before;
+            if (sib && op.k != "swrite" && op.k != "advance")
+                sib_before = party_files(true);
+            if (op.k == "swrite") {
+                do_swrite(op);
+            } else if (op.k == "write") {
                 do_write(op);
                 after_op("write", false);
             } else if (op.k == "advance") {
@@ -920,6 +996,13 @@ struct Engine
                 if (sink)
                     sink->flush();
                 after_op("checkpoint", true);
+            }
+            if (sib && op.k != "swrite" && op.k != "advance" && is("C06") && res.ok) {
+                auto sib_after = party_files(true);
+                if (sib_after != sib_before)
+                    fail("foreign-file-touched",
+                         "operation '" + op.k + "' of the sink for " + active_name + " changed files of the sibling sink " + sib_name,
+                         "foreign-file-touched/sibling");
             }
             if (op.fault_call >= 0 && sim::fs_fault_fired())
                 res.probes["fault_fired"]++;
@@ -938,6 +1021,11 @@ struct Engine
         sim::fs_set_fault(sim::FsFault());
         sink.reset();
         iosink = nullptr;
+        if (sib) {
+            suspended = true;
+            sib.reset();
+            suspended = false;
+        }
         if (res.ok)
             after_op("final", true);
     }
@@ -957,6 +1045,7 @@ struct Engine
         if (!recs.empty())
             days = (int)(recs.back().day - recs.front().day);
         res.probes["day_changes"] = days;
+        res.probes["sibling_sink_records"] = sib_records;
         res.probes["restarts"] = 0;
         for (auto &op : P.ops)
             if (op.k == "restart")
@@ -1247,6 +1336,7 @@ Result run_single(const FPlan &P, bool crash_mode, bool fault_mode, bool collect
     e.cur_op = -1;
     e.make_sink();
     e.after_op("open", true);
+    e.make_sibling();
     e.run_ops(collect_sites);
     e.finish_probes();
     if (getenv("FSIM_DUMP_EVENTS")) {
